@@ -358,3 +358,58 @@ Theorem C16_topologies_rooted_complete :
     In (topo_key true t) (map (topo_key true) ts).
 Proof. exact all_topologies_rooted_complete. Qed.
 Print Assumptions C16_topologies_rooted_complete.
+
+(** * rounds 5-7 judge clauses *)
+From GT Require Import Proofs.StretchSix.
+
+(** sizes below the minimum are errors; stated over Z (Go's int; the model's size is Z.to_nat n), so in
+    particular for every negative size *)
+Theorem C16_below_minimum_Z :
+  forall (z : Z) rooted cs ls names,
+  ((z < 3)%Z -> (exists m, uniform_tree (Z.to_nat z) rooted cs ls = GErr m) /\
+                (exists m, yule_tree (Z.to_nat z) rooted cs ls = GErr m) /\
+                (exists m, caterpillar_tree (Z.to_nat z) rooted ls = GErr m)) /\
+  ((z < 1)%Z -> exists m, balanced_tree (Z.to_nat z) rooted ls = GErr m) /\
+  ((z < 2)%Z -> (exists m, balanced_tree (Z.to_nat z) false ls = GErr m) /\
+                (exists m, star_tree (Z.to_nat z) = GErr m) /\
+                (exists m, all_topologies (Z.to_nat z) true names = Err m)) /\
+  ((z < 3)%Z -> exists m, all_topologies (Z.to_nat z) false names = Err m).
+Proof. exact generators_below_minimum_Z. Qed.
+Print Assumptions C16_below_minimum_Z.
+
+(** AllTopologies: a number of names different from the requested number of tips is an error *)
+Theorem C16_topologies_names_mismatch :
+  forall n rooted names, names <> [] -> length names <> n -> exists m, all_topologies n rooted names = Err m.
+Proof. exact all_topologies_names_err. Qed.
+Print Assumptions C16_topologies_names_mismatch.
+
+(** StarTreeFromTree: the star on exactly the tips of the source tree (TipEdges order), indexes ready *)
+Theorem C16_star_from_tree :
+  forall t, 2 <= length (tip_edges t) ->
+    exists s, star_tree_from_tree t = GOk s /\ wf s = true /\ star s = true /\
+              degree s = length (tip_edges t) /\ leaves s = src_names t.
+Proof. exact star_tree_from_tree_ok. Qed.
+Print Assumptions C16_star_from_tree.
+
+Theorem C16_star_from_tree_indexes :
+  forall t, 2 <= length (tip_edges t) -> NoDup (src_names t) ->
+    exists s, star_tree_from_tree t = GOk s /\ leaves s = src_names t /\ indexes_ready s.
+Proof. exact star_tree_from_tree_indexes. Qed.
+Print Assumptions C16_star_from_tree_indexes.
+
+Theorem C16_star_from_tree_below_minimum :
+  forall t, length (tip_edges t) < 2 -> exists m, star_tree_from_tree t = GErr m.
+Proof. exact star_tree_from_tree_small. Qed.
+Print Assumptions C16_star_from_tree_below_minimum.
+
+Example C16_example_negative_and_star_from_tree :
+  (exists m, uniform_tree (Z.to_nat (-5)) false [] [] = GErr m) /\
+  (exists m, all_topologies 4 false ["a"; "b"]%string = Err m) /\
+  (let t := UNode EmptyString [] [Some (e0, UNode "d" [] [None]); Some (e0, UNode "b" [] [None]);
+                                 Some (e0, UNode "a" [] [None])]%string in
+   2 <= length (tip_edges t) /\ NoDup (src_names t) /\ src_names t = ["d"; "b"; "a"]%string).
+Proof.
+  split; [eexists; reflexivity|]. split; [eexists; reflexivity|].
+  vm_compute. repeat split; auto. repeat constructor; simpl; intuition discriminate.
+Qed.
+Print Assumptions C16_example_negative_and_star_from_tree.
